@@ -1205,6 +1205,39 @@ class PackVer(_Settings, VerificationStrategy):
         return self.formal_step()
 
 
+class PackVerRev(BruteVer):
+    """Verifies the classes with exactly the given prefix (counted by enumeration) and
+    offers a pack that cannot expand such a class forwards: Expand is switched off for
+    that prefix; instead a factory hands out the Expand rule of the class with the
+    prefix shortened by one letter.  When that shorter class has a rule of its own in
+    the specification being expanded (e.g. it is verified by enumeration), the class is
+    obtained as parent minus siblings, i.e. only by a reverse rule."""
+
+    SETTINGS = ("prefix", "order")
+
+    def __init__(self, prefix="aa", order=0, ignore_parent=False):
+        self.prefix = str(prefix)
+        self.order = int(order)
+        BruteVer.__init__(self, minlen=99, prefixes=(self.prefix,), ignore_parent=ignore_parent)
+
+    def _settings_json(self):
+        return {"prefix": self.prefix, "order": self.order}
+
+    def pack(self, c: WC) -> StrategyPack:
+        if not self.verified(c):
+            raise InvalidOperationError("not verified")
+        return StrategyPack(
+            initial_strats=[Peel()],
+            inferral_strats=[],
+            expansion_strats=[[Expand(order=self.order, skip_prefixes=(self.prefix,)), UpFactory(mode=1, order=self.order)]],
+            ver_strats=[WordAtom()],
+            name=f"packverrev-{self.prefix}",
+        )
+
+    def formal_step(self) -> str:
+        return f"verified by enumeration, pack offered that needs a reverse rule (prefix {self.prefix})"
+
+
 STRATEGY_CLASSES = {
     "Expand": Expand,
     "SplitAtom": SplitAtom,
@@ -1221,6 +1254,7 @@ STRATEGY_CLASSES = {
     "AtomStrategy": AtomStrategy,
     "BruteVer": BruteVer,
     "PackVer": PackVer,
+    "PackVerRev": PackVerRev,
 }
 
 
